@@ -89,6 +89,10 @@ func init() {
 		},
 		zz + "AllocEnd": func(fr *frame, a []Value) Value { fr.x.allocLimit = 0; return nil },
 		zz + "SameNumber": inSameNumber,
+		zz + "PoolPuts": func(fr *frame, a []Value) Value { return fr.x.f.Const(64, uint64(fr.x.poolPuts)) },
+		zz + "PoolGets": func(fr *frame, a []Value) Value { return fr.x.f.Const(64, uint64(fr.x.poolGets)) },
+		zz + "LocksHeld": func(fr *frame, a []Value) Value { return fr.x.f.Const(64, uint64(fr.x.cur.held)) },
+		zz + "TrackRelease": func(fr *frame, a []Value) Value { fr.x.trackRelease = a[0].(*Term).IsTrue(); return nil },
 		zz + "Symbolic": func(fr *frame, a []Value) Value { return fr.x.f.Bool(true) },
 		zz + "SameBacking": func(fr *frame, a []Value) Value {
 			s1, s2 := a[0].(Slice), a[1].(Slice)
@@ -510,7 +514,7 @@ func poolNewFn(p *Value) Value {
 func inPoolGet(fr *frame, a []Value) Value {
 	x := fr.x
 	p := a[0].(*Value)
-	x.yield(fr, "pool.Get")
+	x.poolGets++
 	if l := x.pools[p]; len(l) > 0 {
 		v := l[len(l)-1]
 		x.pools[p] = l[:len(l)-1]
@@ -531,18 +535,18 @@ func inPoolGet(fr *frame, a []Value) Value {
 func inPoolPut(fr *frame, a []Value) Value {
 	x := fr.x
 	p := a[0].(*Value)
-	x.yield(fr, "pool.Put")
 	v := a[1]
 	if itf, ok := v.(Iface); ok {
 		if ptr, ok := itf.v.(*Value); ok {
-			if _, dup := x.released[ptr]; dup {
-				x.violate("assert", "object returned to pool twice", x.posOf(callerInstr(fr)))
+			if _, dup := x.released[ptr]; dup && x.trackRelease {
+				x.violate("double-put", "object returned to the pool twice", x.posOf(callerInstr(fr)))
 			}
 			x.released[ptr] = x.posOf(callerInstr(fr))
 			x.reached["__pool_put__"] = true
 		}
 	}
 	x.pools[p] = append(x.pools[p], v)
+	x.poolPuts++
 	return nil
 }
 
